@@ -18,6 +18,9 @@ THEOREMS = [
     'IblVerif.C20.stack_mismatch',
     'IblVerif.C20.svd_full_rank_allotment',
     'IblVerif.C20.svd_collections_partition',
+    'IblVerif.C20.svd_allotment',
+    'IblVerif.C20.svd_single_collection_allotment',
+    'IblVerif.C20.svd_allotment_identity',
     'IblVerif.C20.rolling_len',
     'IblVerif.C20.rolling_len_values',
     'IblVerif.C20.rolling_short',
@@ -40,7 +43,9 @@ THEOREMS = [
 RULE = ('seven families, all seeded from ctx.rng. venn: 2-3 time-ordered sorters (1-40 spikes, occasionally empty or with a channel '
         'beyond the last bin), bin sizes 1-20 x 1-8, chunk sizes biased to 1, binsize+-1, max_sample(+1), half the span, > span and '
         'the defaults (0); exact dictionary compare. stack: 1-24 traces, 1-4 samples, integer labels with repeats (sum and default '
-        'nanmean, bit-exact) and length mismatches; svd plan: recorded (rows, rank) of every _svd_denoise call. rolling_window: '
+        'nanmean, bit-exact) and length mismatches; svd plan: recorded (rows, rank) of every _svd_denoise call, plus the EXHAUSTIVE sweep of '
+        'the rank each collection receives for all nc in 4..160 x all requested ranks 1..nc (single collection and two-way splits) against '
+        'floor(rank*size/nc), and exact-rank data at random intermediate ranks on the real SVD. rolling_window: '
         'exhaustive (n <= 40, wl <= n+2) lengths, Float twin for the five windows; lp: lpad, pad/crop with ft.lp patched to an exact '
         'stand-in. savgol: odd windows 1-11, orders < window, irregular abscissae, polynomial or noisy data, every error branch; '
         'NaN patterns for smooth_interpolate_savgol. cadzow: dense 1-4 x 4-40 layouts (permuted), checkerboard and random sparse '
@@ -325,6 +330,43 @@ def _plan_impl(case, rng_data):
         rows = sorted(int(round(v)) // case['ns'] for v in blk[:, 0])
         out.append(f'{int(cvals[rows[0]])}:{_il(rows)}:{int(rank)}')
     return 'ok ' + ';'.join(out)
+
+
+def _allot_real(nc, rank, coll):
+    """The (size, rank) every collection actually receives: the arguments of the `_svd_denoise` calls."""
+    from ibldsp import voltage
+    calls = []
+
+    def rec(datr, rank):
+        calls.append((int(datr.shape[0]), int(rank)))
+        return datr * 0
+
+    with _patched(voltage, '_svd_denoise', rec):
+        voltage.svd_denoise_npx(np.zeros((nc, 1)), rank=rank, collection=None if coll is None else np.array(coll, dtype=int))
+    return calls
+
+
+def _split_of(nc, r, j=0):
+    """A deterministic two-way split size for the sweep (varies with nc, r and the pass number j)."""
+    return 1 + (7 * nc + 3 * r + 11 * j) % (nc - 1)
+
+
+def _allot_suspects(nc_max=160, passes=2):
+    """Sweep all nc in 4..nc_max x all requested ranks 1..nc (single collection and two-way splits): combinations where a
+    collection receives a rank different from floor(rank*size/nc) in exact integers.  Cheap pre-filter for `search`; every
+    suspect is then confirmed (or discarded) by the data oracle `oracle_svd`."""
+    out = []
+    for nc in range(4, nc_max + 1):
+        for r in range(1, nc + 1):
+            colls = [None] + [[0] * _split_of(nc, r, j) + [1] * (nc - _split_of(nc, r, j)) for j in range(passes)]
+            for coll in colls:
+                try:
+                    got = _allot_real(nc, r, coll)
+                except Exception:
+                    got = None
+                if got is None or any(rk != (r * size) // nc for size, rk in got):
+                    out.append({'family': 'svd', 'nc': nc, 'ns': nc + 2, 'rho': 1, 'rank': r, 'collection': coll, 'seed': 7})
+    return out
 
 
 def _plan_line(case):
@@ -645,6 +687,31 @@ def oracle_svd(case):
         return f'raised {type(e).__name__}: {e}'
     if out.shape != D.shape or not np.allclose(out, D, atol=TOL_ID, rtol=0):
         return f'full rank (rank=nc={nc}): output differs from input by {float(np.max(np.abs(out - D))):.3g}'
+    if case.get('rank'):
+        # intermediate ranks: the overall rank is shared between the collections in proportion of their sizes
+        # (floor, exact integers); data whose rank per collection equals that share must be returned unchanged
+        r = int(case['rank'])
+        cvals = np.zeros(nc, int) if coll is None else coll
+        nsr = max(ns, nc + 2)
+        X = np.zeros((nc, nsr))
+        shares = {}
+        for col in np.unique(cvals):
+            idx = np.where(cvals == col)[0]
+            share = min((r * len(idx)) // nc, len(idx))
+            shares[int(col)] = share
+            if share > 0:
+                X[idx, :] = rng.standard_normal((len(idx), share)) @ rng.standard_normal((share, nsr))
+        try:
+            out = voltage.svd_denoise_npx(X, rank=r, collection=coll)
+        except Exception as e:
+            return f'raised {type(e).__name__}: {e}'
+        scale = max(1.0, float(np.max(np.abs(X))))
+        if out.shape != X.shape or not np.allclose(out, X, atol=TOL_ID * scale, rtol=0):
+            bad = [int(c) for c in np.unique(cvals)
+                   if not np.allclose(out[cvals == c], X[cvals == c], atol=TOL_ID * scale, rtol=0)]
+            return (f'nc={nc}, requested rank {r}: data whose rank per collection equals its share {shares} (floor(rank*size/nc)) '
+                    f'is not returned unchanged in collection(s) {bad}: max deviation {float(np.max(np.abs(out - X))):.3g} '
+                    f'(output rank {[int(np.linalg.matrix_rank(out[cvals == c])) for c in bad]})')
     L = rng.standard_normal((nc, rho)) @ rng.standard_normal((rho, ns))
     for r in (rho, rho + 1):
         if r > nc or r == 0:
@@ -752,6 +819,19 @@ def correspondence(ctx):
             tags=('svdplan', 'svdplan_rank=None' if case['rank'] == 0 else 'svdplan_rank>=nc' if case['rank'] >= case['nc'] else 'svdplan_rank<nc')))
 
     lap('stack/svdplan real')
+    # ---- exhaustive sweep of the per-collection rank allotment: all nc in 4..160 x all ranks 1..nc
+    for nc in range(4, 161):
+        for r in range(1, nc + 1):
+            splits = [_split_of(nc, r, j) for j in range(ctx.n(1, 3))]
+            sizes, got = [nc], [rk for _, rk in _allot_real(nc, r, None)]
+            for sp in splits:
+                rec = _allot_real(nc, r, [0] * sp + [1] * (nc - sp))
+                sizes += [size for size, _ in rec]
+                got += [rk for _, rk in rec]
+            add(f'collranks {r} {nc} {_il(sizes)}', lambda ans, nc=nc, r=r, splits=splits, got=got: ctx.compare(
+                'allot', {'op': 'allot', 'nc': nc, 'rank': r, 'splits': splits}, 'ok ' + _il(got), ans, nontrivial=(r < nc),
+                tags=('allot', 'allot_rank=nc' if r == nc else 'allot_rank=1' if r == 1 else 'allot_1<rank<nc')))
+    lap('allotment sweep real')
     # ---- rolling_window lengths (exhaustive box) and values
     box = ctx.n(40, 90)
     for n in range(1, box + 1):
@@ -956,10 +1036,20 @@ def correspondence(ctx):
         if rng.random() < 0.5:
             coll = [int(v) for v in rng.integers(0, int(rng.integers(1, 5)), nc)]
         case = {'family': 'svd', 'nc': nc, 'ns': ns, 'rho': int(rng.integers(1, max(2, min(nc, ns) // 2))), 'collection': coll,
+                'rank': int(rng.integers(1, nc + 1)), 'seed': int(rng.integers(0, 2 ** 31))}
+        r = oracle_svd(case)
+        ctx.compare('svd-real', dict(case, op='svd-real'), r or 'ok', 'ok',
+                    tags=('svd-real', 'svd_collections' if coll else 'svd_single',
+                          'svd_rank=nc' if case['rank'] == nc else 'svd_rank=1' if case['rank'] == 1 else 'svd_1<rank<nc'))
+    # larger channel counts with intermediate ranks (single collection and per-shank style splits)
+    for i in range(ctx.n(10, 200)):
+        nc = int(rng.integers(8, ctx.n(97, 161)))
+        coll = None if rng.random() < 0.5 else sorted(int(v) for v in rng.integers(0, int(rng.integers(2, 5)), nc))
+        case = {'family': 'svd', 'nc': nc, 'ns': nc + 2, 'rho': 1, 'collection': coll, 'rank': int(rng.integers(2, nc)),
                 'seed': int(rng.integers(0, 2 ** 31))}
         r = oracle_svd(case)
         ctx.compare('svd-real', dict(case, op='svd-real'), r or 'ok', 'ok',
-                    tags=('svd-real', 'svd_collections' if coll else 'svd_single'))
+                    tags=('svd-real', 'svd_collections' if coll else 'svd_single', 'svd_1<rank<nc', 'svd_nc>=8'))
     lap('svd/cadzow numeric')
     # calibration of the noise oracle, recorded every run
     from ibldsp import cadzow as cz
@@ -979,8 +1069,12 @@ def correspondence(ctx):
 # search / replay / known findings
 # ---------------------------------------------------------------------------------------------
 def _size(case):
+    """Description length; a single-collection svd case counts its implicit nc channels, so that the smallest layout wins."""
     import json
-    return len(json.dumps(case, default=str))
+    n = len(json.dumps(case, default=str))
+    if case.get('family') == 'svd' and case.get('collection') is None:
+        n += 3 * int(case.get('nc', 0))
+    return n
 
 
 def _candidates(ctx):
@@ -992,7 +1086,7 @@ def _candidates(ctx):
         op = c.pop('op', None)
         fam = {'venn': 'venn', 'stack': 'stack', 'rollen': 'rolling', 'rolling': 'rolling', 'lp': 'lp', 'lpad': 'lp', 'lp-real': 'lp',
                'savgol': 'savgol', 'savgol-poly': 'savgol', 'sinterp': 'sinterp', 'traj': 'cadzow', 'denoise-standin': 'cadzow',
-               'cadzow-real': 'cadzow', 'derank-rank': 'cadzow', 'svdplan': 'svd', 'svd-real': 'svd'}.get(op)
+               'cadzow-real': 'cadzow', 'derank-rank': 'cadzow', 'svdplan': 'svd', 'svd-real': 'svd', 'allot': 'svd'}.get(op)
         if fam is None:
             continue
         c['family'] = fam
@@ -1000,7 +1094,19 @@ def _candidates(ctx):
             c['n'] = len(c.get('x', [1, 2, 3]))
         if fam == 'svd' and 'rho' not in c:
             c.update({'ns': max(c.get('ns', 8), 2), 'rho': 1})
+        if op == 'allot':
+            for coll in [None] + [[0] * sp + [1] * (c['nc'] - sp) for sp in c.pop('splits', [])]:
+                out.append({'family': 'svd', 'nc': c['nc'], 'ns': c['nc'] + 2, 'rho': 1, 'rank': c['rank'], 'collection': coll, 'seed': 7})
+            continue
+        if op == 'svdplan' and c.get('rank'):
+            c['ns'] = c['nc'] + 2
         out.append(c)
+    # sweep of (nc, requested rank, collection): suspects by the rank each collection receives, confirmed by the data oracle
+    out += _allot_suspects()
+    for _ in range(200):                       # and an unfiltered sample of intermediate ranks
+        nc = int(rng.integers(4, 161))
+        out.append({'family': 'svd', 'nc': nc, 'ns': nc + 2, 'rho': 1, 'rank': int(rng.integers(1, nc + 1)),
+                    'collection': None if rng.random() < 0.5 else [int(v) for v in np.sort(rng.integers(0, 3, nc))], 'seed': 9})
     # exhaustive / boundary boxes
     for n in range(1, 31):
         for wl in range(3, n + 1):
@@ -1070,7 +1176,7 @@ def search(ctx, reasons):
                 'savgol': 'non_uniform_savgol reproduces polynomials up to its order for any spacing',
                 'sinterp': 'smooth_interpolate_savgol fills NaN gaps with finite values and keeps the length',
                 'cadzow': 'cadzow.denoise returns its input at full rank and for one plane wave at rank 1, and reduces added noise',
-                'svd': 'svd_denoise_npx returns its input when rank >= rank of the data, and reduces added noise otherwise',
+                'svd': 'svd_denoise_npx returns its input when rank >= rank of the data (overall rank shared between collections as floor(rank*size/nc)), and reduces added noise otherwise',
             }[case['family']],
             'how': f"python: harness/props/c20.py ORACLES['{case['family']}'](input)  (./check C20 --replay <this file>)"}
 
